@@ -7,5 +7,6 @@ mkdir -p .bin lean/InfluxQL/Gen
 (cd extract && go build -o ../.bin/extract .)
 ./.bin/extract /repo lean/InfluxQL/Gen
 (cd harness && cp /repo/go.sum . 2>/dev/null || true; go build -tags verif -o ../.bin/harness .)
+python3 tools/gen_registry.py
 (cd lean && lake build InfluxQL oracle)
 echo setup-ok
